@@ -85,12 +85,19 @@ CHECKS["C20"] = ("translation_validation",
     "(b) is a concrete regeneration diff with no symbolic variable - not a solver verdict, labelled as such; it is also the precondition of every other check (the engine executes what generated_static_code.go says). (a) bounded as C03's holes.",
     TECH + "relational, two real front ends; plus a concrete regeneration diff", "§3 C20")
 
+CHECKS["C18"] = ("other",
+    "Ownership discipline decided by the solver for all pairs of inputs within the bound: during Parse nothing reachable from package-level variables is written, pooled maps are empty when Put and untouched afterwards, Pool.Get may return any pooled map, and a Parse returns the same value, errors and block trace whatever Parse ran before it. Together with the linearizability of sync.Pool this implies schedule independence and race freedom by a paper argument.",
+    "Reduced claim: goroutine interleavings are not encoded (DESIGN.md §5); bounded: input <= 2 / 3 bytes per call, state/composite/throw/LR catalogue, standard and -optimize-parser.",
+    TECH + "ownership monitor over all paths of three sequential Parse calls with a nondeterministic pool; schedules by argument", "§3 C18")
+CHECKS["C04"] = ("other",
+    "Reduced claim: 'compiles and vets' is the Go type checker's verdict over emitted text and has no SMT encoding. Solver-decided kernel: the generated method names are injective in (rule name, expression index) - violated (known finding F4), each solver model is turned into a grammar and confirmed by go build of the real output. Concrete by-product: catalogue grammars x flag subsets (incl. one grammar with every accepted Unicode class) are generated, type-checked, vetted and initialised/run in the engine.",
+    "Kernel bounds: rule names of 1..3 identifier characters, indices 1..999. The by-product is not a verdict of the technique. Known findings F4 (name collision) and F13 (label clash made by -optimize-grammar) are re-confirmed natively.",
+    TECH + "kernel: symbolic rule names and indices through the real funcName; rest: concrete build/vet by-product", "§3 C04, §5")
+
 NOT_BUILT = {
 }
 
 NA = {
-    "C04": "not built yet",
-    "C18": "not built yet",
 }
 
 
